@@ -65,6 +65,7 @@ func (f fault) tag() string {
 }
 
 type result struct {
+	location              string
 	hit                   bool
 	panic                 string
 	writes, status, first int
@@ -83,6 +84,7 @@ func do(h http.Handler, req *http.Request, st *refstore.Store, flt fault) result
 	st.FaultAt, st.FaultMethod, st.FaultKind = 0, "", ""
 	out.writes, out.first, out.atFirst = rc.writes, rc.first, rc.callsAtFirst
 	out.status = rc.Code
+	out.location = rc.Header().Get("Location")
 	out.body = rc.Body.String()
 	if rc.writes == 0 {
 		out.atFirst = out.end
@@ -478,6 +480,110 @@ func codeCases(w *emit.Writer, g *gen, n int) {
 			Observed: emit.Ctor("OHandler", obs),
 			Tags:     []string{"kind=code", "router=" + rt.String(), "client=" + fo.client, "challenge=" + fo.challenge, "verifier=" + vs[v]},
 			Human:    map[string]any{"form": encode(ps), "status": res.status, "body": short([]byte(res.body)), "panic": res.panic, "code": l.code},
+		})
+	}
+}
+
+// ---- signed id_token_hint with individually odd claims at end_session / authorize (IHint) ----
+
+var tposNames = []string{"TAbsent", "TPast", "TFuture"}
+
+func (g *gen) hintToken(issuerOK, sigOK bool, exp, iat int) string {
+	r := g.r
+	iss := opfix.Issuer
+	if !issuerOK {
+		iss = drv.Pick(r, []string{"https://other.example.com", "", opfix.Issuer + "/"})
+	}
+	m := []kv{{"iss", jstr(iss)}, {"sub", jstr("alice")}, {"aud", jarr(jstr("web"))}, {"azp", jstr("web")}}
+	tm := func(k string, pos int, past, future int64) {
+		switch pos {
+		case 1:
+			m = append(m, kv{k, jint(g.now - past)})
+		case 2:
+			m = append(m, kv{k, jint(g.now + future)})
+		default:
+			if r.Chance(1, 3) {
+				m = append(m, kv{k, drv.Pick(r, []*J{jnull(), jint(0)})}) // decodes to the zero time as well
+			}
+		}
+	}
+	tm("exp", exp, 600, 600)
+	tm("iat", iat, 30, drv.Pick(r, []int64{5, 3600}))
+	if r.Bool() {
+		m = append(m, kv{"auth_time", jint(g.now - 60)})
+	}
+	if r.Bool() {
+		m = append(m, kv{"nonce", jstr("n1")}, kv{"sid", jstr("s1")})
+	}
+	sk := opfix.DefaultSigning()
+	payload := jobj(m...).Bytes(r, false)
+	if sigOK {
+		return sign(sk.Priv, sk.Alg, sk.KID, payload)
+	}
+	if r.Bool() {
+		return sign(opfix.ECKey("someone-else"), jose.ES256, sk.KID, payload)
+	}
+	t := sign(sk.Priv, sk.Alg, sk.KID, payload)
+	return t[:len(t)-4] + "AAAA"
+}
+
+func hintCases(w *emit.Writer, g *gen, n int) {
+	r := g.r
+	st := opfix.NewStd()
+	f, err := opfix.New(st, opfix.Options{})
+	if err != nil {
+		panic(err)
+	}
+	for i := 0; i < n; i++ {
+		rt := opfix.Router(i % 2)
+		caller := i / 2 % 2
+		issOK, sigOK, exp, iat := !r.Chance(1, 6), !r.Chance(1, 6), r.IntN(3), r.IntN(3)
+		if r.Bool() {
+			exp = 2 // mostly unexpired: the later checks are reached
+		}
+		if i < 8 { // signed, unexpired, iat absent / in the future: each caller, each router
+			issOK, sigOK, exp, iat = true, true, 2, []int{0, 2}[i/4]
+		}
+		tok := g.hintToken(issOK, sigOK, exp, iat)
+		var req *http.Request
+		if caller == 0 {
+			ps := []pair{{k: "id_token_hint", v: tok}}
+			if r.Bool() {
+				ps = append(ps, pair{k: "state", v: "x"})
+			}
+			if r.Bool() {
+				req = httptest.NewRequest(http.MethodGet, opfix.Issuer+"/end_session?"+encode(ps), nil)
+			} else {
+				req = httptest.NewRequest(http.MethodPost, opfix.Issuer+"/end_session", strings.NewReader(encode(ps)))
+				req.Header.Set("Content-Type", "application/x-www-form-urlencoded")
+			}
+		} else {
+			q := g.flowOpts("web").query()
+			q.Set("id_token_hint", tok)
+			req = httptest.NewRequest(http.MethodGet, opfix.Issuer+"/authorize?"+q.Encode(), nil)
+		}
+		res := do(f.Handlers[rt], req, st, fault{})
+		loc := res.location
+		obs := "HAccepted"
+		switch c := res.class(); {
+		case c == "RPanic":
+			obs = "HPanic"
+		case c != "RSingle":
+			obs = "HDouble"
+		case res.status >= 400 || strings.Contains(loc, "error="):
+			obs = "HRefused"
+		}
+		entry := "ViaProvider"
+		if rt == opfix.Legacy {
+			entry = "ViaLegacy"
+		}
+		cn := []string{"HEndSession", "HAuthorize"}[caller]
+		w.Add(emit.Case{
+			Input: fmt.Sprintf("(IHint %s %s {| h_issuer_ok := %s; h_sig_ok := %s; h_exp := %s; h_iat := %s |})", cn, entry,
+				emit.Bool(issOK), emit.Bool(sigOK), tposNames[exp], tposNames[iat]),
+			Observed: emit.Ctor("OHint", obs),
+			Tags:     []string{"kind=hint", "router=" + rt.String(), "caller=" + cn, "exp=" + tposNames[exp], "iat=" + tposNames[iat], fmt.Sprintf("sig=%v", sigOK), fmt.Sprintf("iss=%v", issOK)},
+			Human:    map[string]any{"claims": opfix.JWTPayload(tok), "status": res.status, "location": loc, "body": short([]byte(res.body)), "panic": res.panic},
 		})
 	}
 }
